@@ -36,6 +36,7 @@ FT_ENV = dict(os.environ, GOMAXPROCS="2")
 
 # ---------------------------------------------------------------- scripts
 HUGE_R = 64
+DEFAULT_T = 365 * 86400 * 10 ** 9   # createTaskOptions: timeout = 365 * timex.Day when WithTimeout is not given
 
 
 class Task:
@@ -695,6 +696,8 @@ def gen_script(rng, kind):
             behs = [gen_beh(rng, T, "mixed") for _ in range(R)]
             discard = rng.chance(1, 4)
             gap = rng.choice([16, T // 4, T // 2, T, 2 * T, 3 * T])
+        if kind in ("retry", "burst", "stubborn", "prompt") and rng.chance(1, 7):
+            T = DEFAULT_T     # sent WITHOUT WithTimeout (the harness omits the option): createTaskOptions' default of 365 days
         tasks.append(Task(now, T, R, discard, rng.chance(4, 5), behs))
         now += jit(rng, gap) or 16
     return N, tasks
